@@ -318,6 +318,11 @@ func (r *c04Run) rcallback() error {
 	if i >= 0 && i < len(r.sc.script) && r.sc.script[i].cb == "err" {
 		return errC04Callback
 	}
+	if i >= 0 && i < len(r.sc.script) && r.sc.script[i].cb == "errx" {
+		// the callback's own failure is a server exception met elsewhere (say, a nested query on another
+		// connection): still a failing user callback, not an exception packet of THIS query
+		return fmt.Errorf("c04: nested query failed: %w", &ch.Exception{Code: proto.ErrUnknownTable, Name: "DB::Exception", Message: "nested"})
+	}
 	return nil
 }
 
@@ -616,6 +621,14 @@ func (r *c04Run) observe() c04Obs {
 	o.failed = err != nil
 	o.isCtx = err != nil && (errors.Is(err, context.Canceled) || errors.Is(err, context.DeadlineExceeded))
 	o.isExc = err != nil && ch.IsException(err)
+	if o.isExc {
+		// "the query was ended by the server's exception packet": an Exception a user callback returned (cb errx,
+		// recognisable by its message) is the callback's failure, not the server's verdict on this query
+		var ex *ch.Exception
+		if errors.As(err, &ex) && ex.Message == "nested" {
+			o.isExc = false
+		}
+	}
 	o.closed = r.client.IsClosed()
 	ws := r.conn.phaseWrites(1)
 	var tk, ac strings.Builder
